@@ -31,6 +31,8 @@ type HarnessCfg struct {
 	Reverse  bool     `json:"reverse_maps,omitempty"`
 	MaxSteps int      `json:"max_steps,omitempty"`
 	NoCross  bool     `json:"no_cross,omitempty"` // skip the thorough tier's re-decision by a second solver
+	Pkg      string   `json:"pkg,omitempty"`      // harness lives in another package than the property's main one (engine-replayed only)
+	HDir     string   `json:"hdir,omitempty"`
 	selftest bool
 }
 
@@ -263,6 +265,8 @@ func cmdCheck(args []string) int {
 	var results []hres
 	var problems []string
 	crossRuns, crossDisagree := 0, 0
+	progs := map[string]*exec.Program{}
+	progOf := map[string]*exec.Program{}
 	harnesses := cfg.Harnesses
 	if p.Harness["vpH_selftest"] != nil && *only == "" {
 		// the engine self-test runs with every check of this package; its sampled paths are
@@ -276,7 +280,22 @@ func cmdCheck(args []string) int {
 		if h.Tier > tier {
 			continue
 		}
-		fn := p.Harness[h.Name]
+		hp := p
+		if h.Pkg != "" {
+			key := h.Pkg + "|" + h.HDir
+			if progs[key] == nil {
+				q, err := exec.Load(*repo, h.Pkg, filepath.Join(*verif, h.HDir))
+				if err != nil {
+					problems = append(problems, "cannot load/type-check "+h.Pkg+" with its harness: "+clip(err.Error(), 500))
+					continue
+				}
+				progs[key] = q
+			}
+			hp = progs[key]
+			h.Native = false
+		}
+		progOf[h.Name] = hp
+		fn := hp.Harness[h.Name]
 		if fn == nil {
 			problems = append(problems, "harness "+h.Name+" not found")
 			continue
@@ -296,7 +315,7 @@ func cmdCheck(args []string) int {
 				to = 120000
 			}
 		}
-		x := &exec.Explorer{P: p, Harness: fn, NWorker: nw, Solver: solver, Timeout: to, Tier: tier, Seed: seed,
+		x := &exec.Explorer{P: hp, Harness: fn, NWorker: nw, Solver: solver, Timeout: to, Tier: tier, Seed: seed,
 			KFOpen: kfOpen, Reverse: h.Reverse, NCases: 2, MaxStep: h.MaxSteps, Progress: os.Getenv("VERIF_PROGRESS") != ""}
 		if h.selftest {
 			x.NCases = 4
@@ -323,7 +342,7 @@ func cmdCheck(args []string) int {
 			if solver == "z3" {
 				other = "cvc5"
 			}
-			x2 := &exec.Explorer{P: p, Harness: fn, NWorker: nw, Solver: other, Timeout: to, Tier: tier, Seed: seed,
+			x2 := &exec.Explorer{P: hp, Harness: fn, NWorker: nw, Solver: other, Timeout: to, Tier: tier, Seed: seed,
 				KFOpen: kfOpen, Reverse: h.Reverse, NCases: 0, MaxStep: h.MaxSteps, Progress: os.Getenv("VERIF_PROGRESS") != ""}
 			if h.MaxSecs > 0 {
 				x2.Deadline = time.Now().Add(time.Duration(2*h.MaxSecs) * time.Second)
@@ -431,7 +450,11 @@ func cmdCheck(args []string) int {
 			continue
 		}
 		seenLabel[key] = true
-		rf := replayFile{Property: prop, Harness: hv.h.Name, Pkg: cfg.Pkg, HDir: cfg.HDir, Tier: tier, Label: hv.v.Label,
+		rpkg, rhdir := cfg.Pkg, cfg.HDir
+		if hv.h.Pkg != "" {
+			rpkg, rhdir = hv.h.Pkg, hv.h.HDir
+		}
+		rf := replayFile{Property: prop, Harness: hv.h.Name, Pkg: rpkg, HDir: rhdir, Tier: tier, Label: hv.v.Label,
 			Msg: hv.v.Msg, Where: hv.v.Where, Native: hv.h.Native, Reverse: hv.h.Reverse, Inputs: hv.v.Inputs}
 		path := filepath.Join(*verif, "replay", fmt.Sprintf("%s_%s_%d.json", prop, hv.h.Name, i))
 		b, _ := json.MarshalIndent(rf, "", " ")
@@ -490,7 +513,11 @@ func cmdCheck(args []string) int {
 				continue
 			}
 		} else {
-			confirmed = concreteReplay(p, pd.rf)
+			rp := p
+			if q := progOf[pd.rf.Harness]; q != nil {
+				rp = q
+			}
+			confirmed = concreteReplay(rp, pd.rf)
 			if !confirmed {
 				problems = append(problems, fmt.Sprintf("counterexample of %s (%s) does not reproduce in concrete-engine mode, replay=%s", pd.rf.Harness, pd.rf.Label, pd.path))
 				continue
